@@ -55,6 +55,65 @@ def header_split_rule(run):
         run.unrecognised('R5', 'header-split-first-colon', PR, pr.loc(), 'no search for the header separator found in parse_request (parsing idiom changed)')
 
 
+def normalize_shape_rules(run):
+    """Shape of the path normaliser (shared with C16, whose handler lookup uses the normalised path)."""
+    fx = run.fx
+    run.clause('only a COMPLETE segment (one that a \'/\' follows) can be a detour: elements are removed from the path only where the search for the next \'/\' is known to have succeeded; the text after the last \'/\' is kept as it is')
+    for hf in [g_ for g_ in fx.repo_functions() if g_.norm in ('sim::normalize',)]:
+        svars = set()
+        for n in hf.all_nodes():
+            if n['k'] == 'decl':
+                for v in n['vars']:
+                    if is_node(v.get('init')) and any(y['k'] == 'call' and (q.callee_name(y) or '').split('::')[-1] in ('strchr', 'memchr', 'strstr') for y in walk(v['init'])):
+                        svars.add(v.get('name'))
+        pops = [c for c in hf.calls() if (c.get('callee') or '').split('::')[-1] in ('erase', 'pop_back', 'resize', 'clear') and 'vector' in (c.get('callee') or '')]
+        if not svars or not pops:
+            run.broke('normalize(): %s (the detour-removal idiom changed)' % ('no strchr-style search variable' if not svars else 'no removal from the element vector'))
+            continue
+        for c in pops:
+            found = False
+            for a_, p_ in q.guards_at(hf, c):
+                a_ = q.strip_casts(a_)
+                if a_['k'] == 'ref' and a_.get('name') in svars and p_:
+                    found = True
+                ca = q.cmp_atom(a_)
+                if ca and ca[0] in ('!=', '=='):
+                    l_, r_ = q.strip_casts(ca[1]), q.strip_casts(ca[2])
+                    for x_, y_ in ((l_, r_), (r_, l_)):
+                        if x_['k'] == 'ref' and x_.get('name') in svars and (q.int_value(y_) == 0 or y_['k'] in ('nullptr', 'null') or q.render(hf, y_) in ('NULL', 'nullptr', '0', '__null')):
+                            if (ca[0] == '!=') == bool(p_):
+                                found = True
+            run.check(found, 'R5', 'detour-needs-following-slash', '%s: %s' % (hf.norm, q.render(hf, c)[:50]), hf.loc(c),
+                      'an element is removed from the path where the search for the next \'/\' may have found nothing: the text after the LAST \'/\' is treated as a detour too - "/a/b/.." becomes "/a" and "/foo/.." loses its leading \'/\' (the empty string)',
+                      'dominated by <search result> != NULL')
+        def _svar_atom(a_):
+            a_ = q.strip_casts(a_)
+            if a_['k'] == 'ref' and a_.get('name') in svars:
+                return True
+            ca = q.cmp_atom(a_)
+            return bool(ca and ca[0] in ('!=', '==') and any(q.strip_casts(x_)['k'] == 'ref' and q.strip_casts(x_).get('name') in svars for x_ in (ca[1], ca[2])))
+        # the decision "this segment is a detour" compares the WHOLE segment with "..": a std::string (in)equality, not a
+        # length-limited or prefix comparison (strncmp / memcmp / compare(pos, n) / find) - "..x" and "..." are ordinary names
+        LIMITED = ('strncmp', 'memcmp', 'strncasecmp', 'compare', 'find', 'rfind', 'starts_with', 'substr')
+        for c in pops:
+            dec = [(a_, p_) for a_, p_ in q.guards_at(hf, c) if not _svar_atom(a_) and '..' in q.render(hf, a_)]
+            lim = [q.callee_name(y) or y.get('callee') for a_, _p in q.guards_at(hf, c) for y in walk(a_) if y['k'] == 'call' and ((q.callee_name(y) or y.get('callee') or '').split('::')[-1] in LIMITED)]
+            whole = any(a_['k'] == 'call' and (a_.get('callee') or '') in ('std::operator==', 'std::operator!=') for a_, _p in dec)
+            if not dec:
+                run.unrecognised('R5', 'detour-is-whole-segment', '%s: %s' % (hf.norm, q.render(hf, c)[:50]), hf.loc(c), 'no guard mentioning ".." dominates the removal (the detour test changed shape)')
+                continue
+            run.check(whole and not lim, 'R5', 'detour-is-whole-segment', '%s: %s' % (hf.norm, q.render(hf, c)[:50]), hf.loc(c),
+                      'the test that makes a segment a detour is %s, not an (in)equality of the whole segment with "..": a segment that merely starts with two dots ("..x", "...") removes its parent and disappears from the path' % (('a length-limited comparison (%s)' % ', '.join(sorted(set(lim)))) if lim else 'not a std::string comparison'),
+                      'std::string == / != ".."')
+        # the text after the last '/' is always kept, empty or not: an append that lies on every path to the return, outside the
+        # search cycle, under no condition other than the search having failed
+        apps = [c for c in hf.calls() if (c.get('callee') or '').split('::')[-1] in ('push_back', 'emplace_back') and 'vector' in (c.get('callee') or '')]
+        tails = [c for c in apps if hf.cfg.node_block(c) is not None and hf.cfg.node_block(c) not in hf.cfg.reach_from(hf.cfg.node_block(c)) and all(_svar_atom(a_) for a_, _p in q.guards_at(hf, c))]
+        run.check(bool(tails) and q.on_all_paths(hf, tails), 'R4', 'last-segment-always-kept', hf.norm, hf.loc(apps[-1]) if apps else hf.loc(),
+                  'no unconditional append of the text after the last \'/\' lies on every path to the return (it is skipped under some condition, e.g. when empty): "/" and every path ending in \'/\' lose their final, empty element and no longer match the handler registered for them',
+                  'the tail is appended on every path, conditional on nothing but the search having found no further \'/\'')
+
+
 def check(run):
     fx = run.fx
     pr = fx.fn1(PR)
@@ -307,34 +366,7 @@ def check(run):
                                   'a trip round the loop can return to the search without `%s` having been moved past the match' % y.get('name'), '%s is advanced past the match on every cycle' % y.get('name'))
     if nloops < 1:
         run.broke('normalize(): no search loop found (strchr loop confirmed by hand)')
-    run.clause('only a COMPLETE segment (one that a \'/\' follows) can be a detour: elements are removed from the path only where the search for the next \'/\' is known to have succeeded; the text after the last \'/\' is kept as it is')
-    for hf in [g_ for g_ in fx.repo_functions() if g_.norm in ('sim::normalize',)]:
-        svars = set()
-        for n in hf.all_nodes():
-            if n['k'] == 'decl':
-                for v in n['vars']:
-                    if is_node(v.get('init')) and any(y['k'] == 'call' and (q.callee_name(y) or '').split('::')[-1] in ('strchr', 'memchr', 'strstr') for y in walk(v['init'])):
-                        svars.add(v.get('name'))
-        pops = [c for c in hf.calls() if (c.get('callee') or '').split('::')[-1] in ('erase', 'pop_back', 'resize', 'clear') and 'vector' in (c.get('callee') or '')]
-        if not svars or not pops:
-            run.broke('normalize(): %s (the detour-removal idiom changed)' % ('no strchr-style search variable' if not svars else 'no removal from the element vector'))
-            continue
-        for c in pops:
-            found = False
-            for a_, p_ in q.guards_at(hf, c):
-                a_ = q.strip_casts(a_)
-                if a_['k'] == 'ref' and a_.get('name') in svars and p_:
-                    found = True
-                ca = q.cmp_atom(a_)
-                if ca and ca[0] in ('!=', '=='):
-                    l_, r_ = q.strip_casts(ca[1]), q.strip_casts(ca[2])
-                    for x_, y_ in ((l_, r_), (r_, l_)):
-                        if x_['k'] == 'ref' and x_.get('name') in svars and (q.int_value(y_) == 0 or y_['k'] in ('nullptr', 'null') or q.render(hf, y_) in ('NULL', 'nullptr', '0', '__null')):
-                            if (ca[0] == '!=') == bool(p_):
-                                found = True
-            run.check(found, 'R5', 'detour-needs-following-slash', '%s: %s' % (hf.norm, q.render(hf, c)[:50]), hf.loc(c),
-                      'an element is removed from the path where the search for the next \'/\' may have found nothing: the text after the LAST \'/\' is treated as a detour too - "/a/b/.." becomes "/a" and "/foo/.." loses its leading \'/\' (the empty string)',
-                      'dominated by <search result> != NULL')
+    normalize_shape_rules(run)
     run.clause('last duplicate header wins: the header map is written by overwrite (operator[] assignment), not by first-wins insertion')
     hw = []
     for n in pr.all_nodes():
